@@ -71,7 +71,7 @@ COMMON = ('Static structural rules decided on the type-checked program (rustc bu
           'The behaviour of executions as a whole is NOT decided. ')
 
 # Rule groups for dependent properties: a property that is *derived* from another (DESIGN §5) runs that property's necessary conditions too.
-G_EXCL = [(RP.tok_exec, None), (RP.pa_rules, {'PA-excl', 'PA-stuck', 'PA'}), (RP.tok_requeue, None), (RQ.qd_queue, None), (RP.tr_immediate, None)]
+G_EXCL = [(RP.tok_exec, None), (RP.pa_rules, {'PA-excl', 'PA-stuck', 'PA'}), (RP.tok_requeue, None), (RQ.qd_queue, None), (RP.tr_immediate, None), (RO.c05_drop, None)]
 G_ORDER = [(RO.c02_append, None), (RQ.qd_queue, None), (RP.tr_immediate, None), (RP.tr_sibling, None, ['sync']), (RP.tok_requeue, None),
            (RP.pa_rules, {'PA-excl', 'PA'}), (RP.tok_exec, None)]
 
@@ -127,7 +127,7 @@ prop('C06', COMMON +
      'and a queue parked for a polling task is offered to and accepted by the pool (PARK-wake); the two queue wakers agree on the states both handle (TR-sibling); a job that returned Pending is back on the queue before the queue is parked (TOK-requeue).',
      ['every parked configuration is resumable by waker/claimer transitions (PA-wake)', 'wakers call the matching resume action; pool takes over WaitingForPoll (PARK-wake)', 'poll-side drain order, DrainWaker latch table, DoubleWaker, park re-check loop (ORD-C06-drain)', 'wakers agree on Running and WaitingForWake (TR-sibling)', 'requeue before parking (TOK-requeue)', 'the polling task stores its waker before it parks the queue (LW-owner)'],
      ['"for every position of the wake-up" as executions', 'futures that break the waker contract'],
-     [(RP.pa_rules, {'PA-wake', 'PA'}), (RP.park_wake, None), (RO.c06_drain, None), (RP.tr_sibling, None, ['WakeQueue/WakeThread']), (RP.tok_requeue, None), (RW.lw_owner, None), (RP.tr_roles, None)])
+     [(RP.pa_rules, {'PA-wake', 'PA'}), (RP.park_wake, None), (RO.c06_drain, None), (RP.tr_sibling, None, ['WakeQueue/WakeThread']), (RP.tok_requeue, None), (RW.lw_owner, None), (RP.tr_roles, None), (RO.c07_own, None, ['holds-queue-strongly'])])
 
 prop('C07', COMMON +
      'Decided: result and waker of a scheduler future live under one mutex with check-and-register / set-and-take atomic (LW1, LW2; the owner\'s unconditional stores are justified by LW-owner); the job signals once, after its operation completed, '
